@@ -48,7 +48,7 @@ TYPES = {
     "std::time::Duration": ["std::time::Duration::new(1, 5)"],
 }
 PINNED = {}   # version type name -> hand-picked values (Rust expressions)
-OPTION_SPELLINGS = ["Option<{}>", "std::option::Option<{}>", "core::option::Option<{}>"]
+OPTION_SPELLINGS = ["Option<{}>", "std::option::Option<{}>", "core::option::Option<{}>", "(Option<{}>)"]
 
 
 class F:
@@ -150,7 +150,21 @@ def emit_struct(rec, out, env_fns):
     n = rec.name
     out.append("#[derive(Debug, Clone, BinaryCodec)]")
     out.append(evolution_attr(rec.steps).rstrip("\n")) if rec.steps else None
-    if rec.fields:
+    if getattr(rec, "via_macro", False):
+        # the field types reach the derive through a macro_rules `$t:ty` fragment (a `Type::Group` in the derive's input)
+        out.pop()
+        if rec.steps:
+            out.pop()
+        opts = [f for f in rec.fields if f.role == "optional"]
+        params = ", ".join("$t%d:ty" % i for i in range(len(opts)))
+        lines = []
+        for f in rec.fields:
+            attr = "#[transient(%s)] " % f.default if f.role == "transient" else ""
+            ty = "$t%d" % opts.index(f) if f in opts else f.ty
+            lines.append("            %spub %s: %s," % (attr, f.name, ty))
+        out.append("macro_rules! mk_%s {\n    (%s) => {\n        #[derive(Debug, Clone, BinaryCodec)]\n        %s\n        pub struct %s {\n%s\n        }\n    };\n}\nmk_%s!(%s);"
+                   % (n.lower(), params, evolution_attr(rec.steps).strip() if rec.steps else "", n, "\n".join(lines), n.lower(), ", ".join(f.ty for f in opts)))
+    elif rec.fields:
         out.append("pub struct %s {\n%s\n}" % (n, field_decl_lines(rec.fields)))
     else:
         out.append("pub struct %s;" % n)
@@ -303,6 +317,11 @@ def base_catalogue():
     # the three Option spellings
     decls.append(Rec("OptSpell", [F("a", opt("u8", 0), "optional", None, "u8"), F("b", opt("String", 1), "optional", None, "String"),
                                   F("c", opt("Vec<u16>", 2), "optional", None, "Vec<u16>"), F("d", "u8")]))
+    decls.append(Rec("OptParen", [F("a", "u8"), F("c", opt("u32", 3), "optional", None, "u32"), F("b", "String")], [("opt", "c")]))
+    og = Rec("OptGroup", [F("a", "u8"), F("c", "Option<u32>", "optional", None, "u32"), F("n", "Option<String>", "optional", None, "String"), F("b", "String")],
+             [("opt", "c"), ("add", "n", "None")])
+    og.via_macro = True
+    decls.append(og)
     # transient in every position, non-default values are generated
     decls.append(Rec("TransFirst", [F("t", "u32", "transient", "7u32"), F("a", "u8"), F("b", "String")]))
     decls.append(Rec("TransMid", [F("a", "u8"), F("t", "String", "transient", "\"dflt\".to_string()"), F("b", "String")]))
@@ -513,7 +532,7 @@ def history(rng, hname, as_variant=False):
                 t = rand_type(rng)
                 name = "n%d" % counter
                 if rng.random() < 0.35:
-                    f = F(name, opt(t, rng.randint(0, 2)), "optional", None, t)
+                    f = F(name, opt(t, rng.randint(0, 3)), "optional", None, t)
                     d = rng.choice(["None", "Some(%s)" % rng.choice(TYPES[t])])
                 else:
                     f = F(name, t)
@@ -528,7 +547,7 @@ def history(rng, hname, as_variant=False):
                     continue
                 f = rng.choice(cands)
                 f.inner = f.ty
-                f.ty = opt(f.ty, rng.randint(0, 2))
+                f.ty = opt(f.ty, rng.randint(0, 3))
                 f.role = "optional"
                 # the FieldAdded default is typed as the field's *current* type
                 for j, st in enumerate(steps):
